@@ -235,6 +235,49 @@ def evaluate(pid, cases, oc=None, compare_outside_domain=False):
     return oc
 
 
+def history_level(oc, pid, cases):
+    """"From every state reached by earlier merges": the model is run along each live history from the initial
+    running order (value semantics: what the documents say).  Where the library's live state has drifted from it
+    - which it never does on a correct tree -, the step is judged against the state the history SHOULD have
+    reached: spec(model's state before, message) versus what the library's object holds afterwards."""
+    from . import lean
+    by = {}
+    for c in cases:
+        if 'hist_id' in c and 'impl' in c and 'err' in c['impl']:
+            by.setdefault(c['hist_id'], []).append(c)
+    for lst in by.values():
+        lst.sort(key=lambda c: c['k'])
+    state = {hid: lst[0]['ro'] for hid, lst in by.items()}
+    keys = [pid] + EXTRA_KEYS.get(pid, [])
+    depth = 0
+    while True:
+        todo = [(hid, lst[depth]) for hid, lst in by.items() if depth < len(lst)]
+        if not todo:
+            break
+        reqs = [{'op': 'add', 'ro': state[hid], 'msg': TJ.parse(c['msg_text']),
+                 'impl': {'err': c['impl']['err'], 'warns': c['impl']['warns'], 'ro': c['impl']['ro']}} for hid, c in todo]
+        for (hid, c), r in zip(todo, lean.run_batch(reqs)):
+            drifted = state[hid] != c['ro']
+            if 'model' in r:
+                nxt = r['model']['ro']
+            else:
+                nxt = state[hid]
+            if drifted and 'props' in r and RELEVANT[pid](c['cls']):
+                oc.count('history-level-judgements')
+                for key in keys:
+                    v = r['props'][key]
+                    if v['dom'] and not v['holds']:
+                        oc.failing.append({'kind': 'add', 'label': c['label'] + ':history-level', 'cls': c['cls'],
+                                           'ro_text': TJ.to_text(state[hid]), 'msg_text': c['msg_text'],
+                                           'live_history': c['history_script'], 'history_level': True,
+                                           'spec': key + ' (judged from the state the history should have reached: the live running order had '
+                                                   'drifted from what its documents say before this step)',
+                                           'impl': {'err': c['impl']['err'], 'warns': c['impl']['warns'], 'ro_text': TJ.to_text(c['impl']['ro'])},
+                                           'model': {'err': r['model']['err'], 'warns': r['model']['warns'], 'ro_text': TJ.to_text(r['model']['ro'])}})
+            state[hid] = nxt
+        depth += 1
+
+
 def collection_route(oc, triples, limit=400):
     """C06 through the other documented route: the same running order and message as a two-document
     collection merged non-strictly and strictly must report exactly the warnings `ro += msg` reports."""
@@ -300,6 +343,15 @@ def replay_add(pid, rec):
         if 'err' in o:
             collection_route(oc2, [({'label': 'replay', 'cls': rec.get('cls', '?')}, (rec['ro_text'], rec['msg_text']), o)])
         return bool(oc2.failing), {'failing': [f['impl'] for f in oc2.failing]}
+    if rec.get('history_level'):
+        from . import hist_run
+        before, o = hist_run.replay_live(rec['live_history'])
+        if o is None:
+            return False, {'note': 'the last step of the recorded history is no longer classified'}
+        r = lean.run_batch([{'op': 'add', 'ro': TJ.parse(rec['ro_text']), 'msg': TJ.parse(rec['msg_text']),
+                             'impl': {'err': o['err'], 'warns': o['warns'], 'ro': o['ro']}}])[0]
+        failing = any(r.get('props', {}).get(k, {}).get('dom') and not r['props'][k]['holds'] for k in [pid] + EXTRA_KEYS.get(pid, []))
+        return failing, {'impl': {'err': o['err'], 'warns': o['warns'], 'ro': TJ.to_text(o['ro'])}, 'props': r.get('props')}
     if 'live_history' in rec:
         # object re-use / direct msg.merge(ro): only the live history reproduces the step
         from . import hist_run
